@@ -46,6 +46,10 @@ func (p *Points) NextSeq() int64 { return p.seq.Add(1) }
 // detector (checks.inBubble) uses it to tell a busy bubble from a frozen one.
 var Progress atomic.Int64
 
+// BubbleLeaks counts bubbles whose body returned while goroutines of the system under test were still
+// durably blocked (reported by synctest as a deadlock; see checks.inBubble).
+var BubbleLeaks atomic.Int64
+
 func (p *Points) dispatch(name string, args ...any) {
 	Progress.Add(1)
 	ev := PointEvent{Seq: p.seq.Add(1), Name: name, Args: args, VT: time.Now()}
